@@ -291,6 +291,10 @@ func (g *G) genReqCC() []string {
 	}
 	for _, f := range []string{"no-cache", "only-if-cached", "no-store", "no-transform"} {
 		if g.chance(0.18) {
+			if g.chance(0.25) {
+				// directive names are case-insensitive, letter by letter
+				f = pick(g, strings.ToUpper(f), strings.ToUpper(f[:1])+f[1:], f[:len(f)-1]+strings.ToUpper(f[len(f)-1:]), f[:3]+strings.ToUpper(f[3:5])+f[5:])
+			}
 			cc = append(cc, f)
 		}
 	}
